@@ -49,6 +49,8 @@ class Engine(Interp):
 
     def canonicalise(self, st, tag):
         self.gc(st)
+        if st.pairs:
+            self.norm_pairs(st)
         pairs = []
         memo_any = {}
         n = [0]
@@ -95,6 +97,10 @@ class Engine(Interp):
                     return ('idx', pos(v[1]))
                 if h in ('oarr', 'oslice') and len(v) == 3:
                     return (h, cw(v[1]), pos(v[2]))
+                if h == 'oslice' and len(v) == 5:
+                    return (h, cw(v[1]), pos(v[2]), pos(v[3]), pos(v[4]))
+                if h == 'opqit' and len(v) == 5:
+                    return (h, cw(v[1]), v[2], pos(v[3]), pos(v[4]))
                 if h == 'boolc':
                     return ('boolc', ccond(v[1]))
                 if h == 'aff' and len(v) == 3:
@@ -135,6 +141,10 @@ class Engine(Interp):
                 ms.examined = (cw(ms.examined[0]), pos(ms.examined[1]), pos(ms.examined[2]))
             if ms.pending is not None:
                 ms.pending = (pos(ms.pending[0]), cw(ms.pending[1]) if ms.pending[1] is not None else None)
+        for k in sorted(s2.pairs, key=str):
+            pv = s2.pairs[k]
+            if pv is not None:
+                s2.pairs[k] = (pos(pv[0]), pos(pv[1]), pos(pv[2]))
         # zone: the canonical names are aliases of the old terms; everything else (except the
         # persistent entry-state terms) is projected away
         s2.zone = s2.zone.remap(pairs, is_persistent)
@@ -149,7 +159,7 @@ class Engine(Interp):
             ms = st.maps[mid]
             mp.append((mid, ms.len, ms.cap, ms.holes, ms.extras, ms.hole_rng, ms.extra_rng, ms.contents,
                        ms.exempt, ms.dead, ms.owned_extras, ms.examined, ms.pending))
-        return (fr, ob, tuple(mp), st.unwinding, tuple(sorted(st.fmeta.items(), key=lambda kv: kv[0])) and None)
+        return (fr, ob, tuple(mp), st.unwinding, tuple(sorted(st.pairs.items(), key=str)))
 
     def loop_join(self, table, key, st):
         """at a loop head: returns the state to continue with, or None when subsumed"""
@@ -926,6 +936,23 @@ class Engine(Interp):
                 body = self.facts.bodies[bid]
                 gs = self.gs_from_value(st, v, body)
                 return self.call_local(st, bid, [('ref', True, ptr)], gs)
+        if h == 'opqit' and len(v) == 5:
+            # iterator over an opaque array of user data whose element positions are tracked
+            _, tg, ety, pos, end = v
+            out = []
+            a = st.fork()
+            a.zone.add_lt(pos, end)
+            if a.zone.sat:
+                self.store(a, ptr, ('opqit', tg, ety, slots.plus(a, pos, 1), end))
+                a.log('next', ('opqit', tg), 'Some')
+                cell = ('opq', ('elem', tg, pos))
+                item = ('ref', bool(ety.get('mut')), cell) if (ety is not None and ety.get('k') == 'ref') else ('opq', ('elem', tg, pos))
+                out.append(('ret', a, some(item)))
+            st.zone.add_le(end, pos)
+            if st.zone.sat:
+                st.log('next', ('opqit', tg), 'None')
+                out.append(('ret', st, NONE))
+            return out
         if h in ('opqit', 'opq', 'unk', 'oslice'):
             # iterator over user data / user iterator
             out = []
